@@ -17,15 +17,17 @@ def run(tier, replay=None):
     binary = C.build()
     work = C.fresh_dir(C.WORK / PID)
     rnd = random.Random(rep.seed)
-    d1, g1 = gen.run_generator("GenOrder", work / "gen1", dict(MaxDepth=1))
-    d2, g2 = gen.run_generator("GenOrder", work / "gen2", dict(MaxDepth=2), timeout=1200)
-    sim, g3 = gen.run_generator("GenOrder", work / "sim", dict(MaxDepth=4), simulate=(3000 if tier == "quick" else 40000),
-                                depth=60, seed=rep.seed, timeout=(120 if tier == "quick" else 600))
     key = lambda c: " ".join(c["toks"])
+    d1, g1 = gen.run_generator("GenOrder", work / "gen1", dict(MaxDepth=1))
+    # operand depth 2 and more: too many trees to enumerate (a 4-argument call has ~10^8), sampled by seeded simulation
+    d2, g2 = gen.run_generator("GenOrder", work / "sim2", dict(MaxDepth=2), simulate=(9000 if tier == "quick" else 80000), depth=60,
+                               seed=rep.seed, timeout=(100 if tier == "quick" else 900))
+    sim, g3 = gen.run_generator("GenOrder", work / "sim", dict(MaxDepth=4), simulate=(3000 if tier == "quick" else 40000),
+                                depth=60, seed=rep.seed + 1, timeout=(100 if tier == "quick" else 600))
     d1 = gen.dedupe(d1, key)
     d2 = [c for c in gen.dedupe(d2, key) if key(c) not in {key(x) for x in d1}]
     sim = [c for c in gen.dedupe(sim, key) if len(c["toks"]) > 7]
-    b2 = 6000 if tier == "quick" else len(d2)
+    b2 = 5000 if tier == "quick" else 80000
     b3 = 2500 if tier == "quick" else 40000
     total2 = len(d2)
     if len(d2) > b2:
@@ -35,7 +37,7 @@ def run(tier, replay=None):
     cases = gen.dedupe(d1 + d2 + sim, key)
     for c in cases:
         c["id"] = key(c)
-    C.log(f"[{PID}] {len(d1)} trees depth<=1 (all), {len(d2)} of {total2} depth-2 trees, {len(sim)} simulated deeper trees")
+    C.log(f"[{PID}] {len(d1)} trees with leaf operands (all), {len(d2)} of {total2} simulated depth-2 trees, {len(sim)} simulated deeper trees")
     dis, skips, st = l1.run_cases(binary, work, cases)
     byid = {c["id"]: c for c in cases}
     for c in cases:
@@ -52,7 +54,7 @@ def run(tier, replay=None):
         rejected_by_compiler=sum(1 for c in cases if c["rejected"]),
         states=st["states"] + g1.distinct + g2.distinct, transitions=st["transitions"] + g1.generated + g2.generated,
         evaluations=len(cases), distinct_nontrivial=sum(1 for c in cases if len(c["toks"]) >= 4),
-        rule="GenOrder.tla: typed prefix-token derivations; all trees of operand depth <= 1, (sample of) depth 2, seeded -simulate trees up to depth 4; 19 productions over int/bool incl. &&, ||, `or`, calls with 2-4 arguments, list literals, indexing, recursion inside operands; non-trivial = at least 4 tokens",
+        rule="GenOrder.tla: typed prefix-token derivations; all trees whose operands are leaves, seeded -simulate trees of operand depth 2 and up to 4; 23 productions incl. variable reads, a mutating call and boolean literals over int/bool incl. &&, ||, `or`, calls with 2-4 arguments, list literals, indexing, recursion inside operands; non-trivial = at least 4 tokens",
         samples=[dict(tokens=c["id"], src=c["src"].split("print \"S\"")[1][:300], log=c["obs"][0]["out"]) for c in cases[:: max(1, len(cases) // 3)][:3]],
     )
     rep.assumptions = ["MSLang.tla evaluates strictly left to right with short-circuit &&, ||, or"]
